@@ -354,6 +354,7 @@ fn queue_main(plan: &Value, slot: Arc<Mutex<Option<QueueRun>>>) {
     stream.flush_fail = ja(plan, "flush_fail").iter().filter_map(|x| x.as_u64()).collect();
     stream.flush_fail_from = plan.get("flush_fail_from").and_then(|x| x.as_u64());
     stream.fail_all = plan.get("fail_all").and_then(|x| x.as_str()).map(Res::from_str);
+    stream.fail_all_from = ju(plan, "fail_all_from", 0);
     stream.install_subscriber_at = plan.get("writer_subscriber_at").and_then(|x| x.as_u64());
     for s in ja(plan, "script") {
         if let Some(a) = s.as_array() {
@@ -1728,7 +1729,9 @@ pub fn gen_c04_liveness(rng: &mut Rng, _tier: Tier) -> Value {
         "gate": -1,
         "script": [],
         // a fifth of the runs: the stream rejects every single entry (progress must not depend on success)
-        "fail_all": if rng.chance(0.2) { json!(*rng.pick(&["V", "I"])) } else { Value::Null },
+        "fail_all": if rng.chance(0.3) { json!(*rng.pick(&["V", "I"])) } else { Value::Null },
+        // ... from the k-th entry on (a device that breaks after some good writes)
+        "fail_all_from": *rng.pick(&[0u64, 0, 1, 5, 31, 33, 50]),
         "report_res": "O",
         "flush_fail": [],
         "producers": producers,
